@@ -480,4 +480,120 @@ theorem rebuild_addr_spec {x : AState} (hi : Inv x) (nb : List Blk) (hl : Linked
           exact ⟨noMgr _ rfl rfl, by first | rfl | trivial, by simp [AState.manager], by simp,
             by first | trivial | exact fun h => by cases h⟩
 
+/-- confirming whole pooled transactions: the ones above the new confirmed height are the rest of the list -/
+theorem filter_heads_drop : ∀ (ts : List Tx) (s : Id) (k : Nat), Linked s (flat ts) → HeightsOK (flat ts) →
+    ts.filter (fun t => decide (s.2 + (flat (ts.take k)).length < t.head.height)) = ts.drop k
+  | [], _, _, _, _ => by simp
+  | t :: r, s, k, hl, hh => by
+    obtain ⟨h1, h2, hlr⟩ := (linked_flat_cons s t r).mp hl
+    have hh' := hh
+    rw [flat_cons] at hh'
+    obtain ⟨hhc, hhr⟩ := heightsOK_append.mp hh'
+    cases k with
+    | zero =>
+      simp only [List.take_zero, flat_nil, List.length_nil, Nat.add_zero, List.drop_zero]
+      rw [List.filter_eq_self]
+      intro t' ht'
+      have := (linked_mem_height (flat (t :: r)) s hl hh t'.head (mem_flat.mpr ⟨t', ht', head_mem_commits t'⟩)).1
+      exact decide_eq_true this
+    | succ k =>
+      have hth : t.head.height = s.2 + t.commits.length := by
+        have := linked_last_height t.commits s (by rw [← h1]; exact h2) hhc
+        rw [lastIdFrom_commits] at this
+        simpa [Tx.id, Blk.id] using this
+      have ih := filter_heads_drop r t.id k hlr hhr
+      have hnot : ¬ (s.2 + (flat ((t :: r).take (k + 1))).length < t.head.height) := by
+        simp only [List.take_succ_cons, flat_cons, List.length_append]; omega
+      simp only [List.filter_cons, hnot, decide_false, List.drop_succ_cons]
+      rw [← ih]
+      have e : s.2 + (flat ((t :: r).take (k + 1))).length = t.id.2 + (flat (r.take k)).length := by
+        simp only [List.take_succ_cons, flat_cons, List.length_append, Tx.id, Blk.id]; omega
+      simp only [e]
+      rfl
+
+theorem keptBy_whole_prefix {conf : List Blk} {pooled : List Tx} (hl : Linked (lastId conf) (flat pooled))
+    (hh : HeightsOK (flat pooled)) (hc : Linked zeroId conf) (hhc : HeightsOK conf) (k : Nat) :
+    keptBy (conf ++ flat (pooled.take k)) pooled = pooled.drop k := by
+  have hsplit : flat pooled = flat (pooled.take k) ++ flat (pooled.drop k) := by
+    rw [← flat_append, List.take_append_drop]
+  have hl' := hl
+  rw [hsplit, linked_append] at hl'
+  have hh' := hh
+  rw [hsplit] at hh'
+  have hc' : Linked zeroId (conf ++ flat (pooled.take k)) := (linked_append _ _ _).mpr ⟨hc, by rw [← lastId_eq]; exact hl'.1⟩
+  have hhc' : HeightsOK (conf ++ flat (pooled.take k)) := heightsOK_append.mpr ⟨hhc, (heightsOK_append.mp hh').1⟩
+  have hthr : (lastId (conf ++ flat (pooled.take k))).2 = (lastId conf).2 + (flat (pooled.take k)).length := by
+    rw [chain_last_height _ hc' hhc', chain_last_height _ hc hhc]; simp
+  unfold keptBy
+  simp only [hthr, filter_heads_drop pooled (lastId conf) k hl hh]
+  rw [lastId_append]
+  simp [hl'.2]
+
+/-! #### what the pool lists -/
+
+theorem uncommitted_spec {x : AState} (hi : Inv x) : uncommittedBlocks x = some (flat x.manager.pooled) := by
+  obtain ⟨hb, hlp, hhp, _, _⟩ := manager_ok hi
+  have hview : Linked zeroId (x.manager.base ++ flat x.manager.pooled) := by
+    rw [hb, linked_append]; exact ⟨hi.1, by rw [← lastId_eq]; exact hlp⟩
+  have hvh : HeightsOK (x.manager.base ++ flat x.manager.pooled) := heightsOK_append.mpr ⟨by rw [hb]; exact hi.2.1, hhp⟩
+  have hhi := chain_last_height _ hview hvh
+  have hcl := chain_last_height _ hi.1 hi.2.1
+  unfold uncommittedBlocks Mgr.view
+  simp only [hhi, hcl]
+  rw [uncommittedOf_chain _ hview hvh _ (by omega) _ (by simp only [List.length_append, hb]; omega)]
+  simp only [List.length_append, hb]
+  have e1 : x.confirmed.length + 1 - 1 = x.confirmed.length := by omega
+  have e2 : x.confirmed.length + (flat x.manager.pooled).length + 1 - (x.confirmed.length + 1) =
+      (flat x.manager.pooled).length := by omega
+  rw [e1, e2, ← hb, List.drop_left, List.take_length]
+
+/-! #### the whole pool -/
+
+/-- what the callers guarantee about an operation: transactions are well formed (`TxWF`); a momentum extends the
+    account chains by blocks that link to them (chain insert) -/
+def OpOK (s : PoolSt) : Op → Prop
+  | .add _ t _ => TxWF t
+  | .insert c => ∀ a, Linked (lastId (s a).confirmed) (contentOf c a) ∧ HeightsOK (contentOf c a)
+  | .delete _ => True
+
+/-- states reachable from any confirmed account chains and an empty pool -/
+inductive Reachable : PoolSt → Prop
+  | init (s : PoolSt) : (∀ a, Linked zeroId (s a).confirmed ∧ HeightsOK (s a).confirmed ∧ (s a).mgr = none) → Reachable s
+  | step {s : PoolSt} (op : Op) : Reachable s → OpOK s op → Reachable (step s op)
+
+theorem step_inv {s : PoolSt} (h : ∀ a, Inv (s a)) (op : Op) (hop : OpOK s op) : ∀ a, Inv (step s op a) := by
+  intro b
+  cases op with
+  | add a t f =>
+    simp only [step, addAt, upd]
+    split
+    · rename_i hb; exact (addTx_shape (h a) t f hop).1
+    · exact h b
+  | insert c =>
+    obtain ⟨h1, h2⟩ := hop b
+    exact (rebuild_addr_spec (h b) (contentOf c b) h1 h2).1
+  | delete k =>
+    exact ⟨linked_take _ _ _ (h b).1, heightsOK_take _ (h b).2.1, fun m hm => by simp [step, deleteMomentum] at hm⟩
+
+theorem reachable_inv {s : PoolSt} (hr : Reachable s) : ∀ a, Inv (s a) := by
+  induction hr with
+  | init s h => intro a; exact ⟨(h a).1, (h a).2.1, fun m hm => by rw [(h a).2.2] at hm; cases hm⟩
+  | step op _ hop ih => exact step_inv ih op hop
+
+/-- the address loop of `rebuild` touches the visited addresses only, each once -/
+theorem rebuildLoop_apply : ∀ (order : List Addr) (s : PoolSt), order.Nodup → ∀ b,
+    rebuildLoop s order b = if b ∈ order then (rebuildAddr (s b)).1 else s b
+  | [], s, _, b => by simp [rebuildLoop]
+  | a :: rest, s, hn, b => by
+    have hn' := List.nodup_cons.mp hn
+    have ih := rebuildLoop_apply rest (rebuildAt s a) hn'.2 b
+    simp only [rebuildLoop, List.foldl_cons] at ih ⊢
+    rw [ih]
+    by_cases hba : b = a
+    · subst hba
+      simp [hn'.1, rebuildAt, upd]
+    · by_cases hbr : b ∈ rest
+      · simp [hbr, rebuildAt, upd, hba]
+      · simp [hbr, hba, rebuildAt, upd]
+
 end ZV.PoolMulti
